@@ -34,9 +34,12 @@ def run(chk, replay=None):
         rall, st5 = vf.tlc_gen("CarbonsGen.tla", "CarbonsGenReconfAll.cfg" if quick else "CarbonsGenReconfAll4.cfg")
         rsim, st6 = vf.tlc_simulate("CarbonsGen.tla", "CarbonsGenSimReconf.cfg", num=150 if quick else 3000, depth=8,
                                     seed=chk.seed, workers=2)
-        behs = vf.maximal_behaviours(tour + allp + sim + rtour + rall + rsim)
+        # inner messages that carry XEP-0280/0334/0203/0297 markers of their own (<private/>, hints, delay, a nested
+        # <forwarded/>), headline / groupchat inner types: tour over representative sender classes and wrappers
+        itour, st7 = vf.tlc_gen("CarbonsGen.tla", "CarbonsGenInner.cfg")
+        behs = vf.maximal_behaviours(tour + allp + sim + rtour + rall + rsim + itour)
         chk.cov["generation"] = {"tour": st1, "all_paths": st2, "simulate": st3, "reconfigure_tour": st4,
-                                 "reconfigure_all_paths": st5, "reconfigure_simulate": st6}
+                                 "reconfigure_all_paths": st5, "reconfigure_simulate": st6, "inner_marker_tour": st7}
     vf.write_ndjson(chk.path("behaviours.ndjson"), behs)
     # 3. replay on the real client + carbon manager
     trace = chk.path("trace.ndjson")
